@@ -117,6 +117,13 @@ fn main() {
                 replay = args.get(i + 1).cloned();
                 i += 2;
             }
+            "--explore-config" => {
+                // developer aid: explore one configuration (a replay-file-shaped JSON) to a bound
+                let path = args.get(i + 1).cloned().unwrap_or_else(|| usage());
+                let bound: u32 = args.get(i + 2).and_then(|b| b.parse().ok()).unwrap_or(2);
+                mock::install_quiet_panic_hook();
+                std::process::exit(explore_one(&prop, &path, bound));
+            }
             _ => usage(),
         }
     }
@@ -277,4 +284,41 @@ fn do_replay(prop: &str, path: &str) -> i32 {
         return 0;
     }
     2
+}
+
+fn explore_one(prop: &str, path: &str, bound: u32) -> i32 {
+    let doc: serde_json::Value = serde_json::from_str(&std::fs::read_to_string(path).expect("read")).expect("json");
+    let harness = doc["harness"].as_str().unwrap_or("");
+    let h: Box<dyn explore::Harness> = if harness.starts_with("server_core") {
+        Box::new(ServerHarness {
+            prop: server_prop(prop).expect("server property"),
+            cfgs: vec![serde_json::from_value(doc["config"].clone()).expect("config")],
+        })
+    } else if harness.starts_with("chain") {
+        Box::new(chain_props::ChainHarness {
+            prop: match prop {
+                "C02" => chain_props::HProp::C02,
+                "C04" => chain_props::HProp::C04,
+                _ => chain_props::HProp::C18,
+            },
+            cfgs: vec![serde_json::from_value(doc["config"].clone()).expect("config")],
+        })
+    } else {
+        Box::new(ClientHarness {
+            prop: client_prop(prop).expect("client property"),
+            cfgs: vec![serde_json::from_value(doc["config"].clone()).expect("config")],
+        })
+    };
+    for b in 0..=bound {
+        let r = explore::explore_round(h.as_ref(), b, None);
+        eprintln!("bound {b}: executions {} violating {}", r.stats.evaluations, r.stats.found.len());
+        let found = dedupe(&r.stats.found);
+        for f in &found {
+            println!("{} choices {:?}\n   {}", f.v.signature, f.choices, f.v.message);
+        }
+        if !found.is_empty() {
+            return 1;
+        }
+    }
+    0
 }
